@@ -276,6 +276,11 @@ def gen_history(rnd, nops, p_reject=0.12, p_boundary=0.15, flush_every=None, rea
                 l = s.last()
                 u = (max(s.term, l[0] if l else 0), (l[1] if l else -1) + rnd.randint(1, 4))
                 stats["boundary"] += 1
+            elif s.purged is not None and s.purged[0] > 0 and rnd.random() < 0.3:
+                # a purge point with a LOWER term but a higher index than the current one (ids are
+                # compared as (term, index), purging goes by index): accepted by the crate
+                u = (s.purged[0] - 1, s.purged[1] + rnd.randint(1, 3))
+                stats["boundary"] += 1
             elif s.purged is not None:
                 u = s.purged if rnd.random() < 0.5 else (s.purged[0], rnd.randint(0, s.purged[1]))
             elif s.entries:
